@@ -424,6 +424,7 @@ PROPS.update({
 })
 
 import lschecks
+import astcheck
 
 PROPS.update({
     'C27': dict(
@@ -601,5 +602,30 @@ PROPS.update({
              'lookahead terminals, comments and %allow_unmatched (as C13), each LL and LALR; K in 1..4; non-trivial = source and export '
              'were both produced and compared; distinct = distinct case text',
         explanation='source == export (field by field) and source tables pass tables_ok / la_dfa_check / lr_validate.',
+    ),
+})
+
+
+PROPS.update({
+    'C23': dict(
+        level='proof',
+        level_text='Rocq theorems about an executable stack-machine model of the GENERATED adapter (Gen2/AstModel.v; LL and LALR forms): '
+                   'for every attributed grammar that passes attrs_ok and every derivation tree the adapter leaves exactly the '
+                   'specified value (C23_build_ast_sem), whose tokens read in order are the visible (non-clipped) tokens of the yield '
+                   '(C23_ast_tokens), options are Some exactly when the optional production was applied (C23_options_present_iff), Vec '
+                   'items are in input order (C23_repetition_order), the start action is called once per start-symbol node and the last '
+                   'call carries the whole AST (C23_start_action_count/_last). Tie to the code: the real `parol` binary generates parser and '
+                   'adapter for generated grammars (clipping, optionals, repetitions, groups; LL and LALR) into a scratch crate that is '
+                   'COMPILED and RUN on generated sentences with a user struct that overrides every non-terminal action; the Debug form '
+                   'of the start action\'s argument is compared with the model\'s value (computed from the `parol export` attributes and the '
+                   'model parser\'s action trace), the user-action sequence with the model\'s, the token order with the input.',
+        level_note='User types (%nt_type/%t_type/: Type) are outside the model (conversions are opaque). rustc and the compiled code are '
+                   'trusted for the run. The literal "exactly once" is refuted for recursive start symbols (known finding).',
+        technique='Rocq proof (tree induction: stack-machine adapter model = reversal-free specification) + differential run of compiled generated adapters',
+        custom=astcheck.c23,
+        rule='grammars: 1-3 non-terminals, LL(1) by construction, factors: terminals (1/4 clipped), non-terminal references (15% '
+             'clipped), repetitions, optionals, groups, optional-containing-repetition; each as LL(k) and LALR(1); sentences by random '
+             'derivation; non-trivial = the AST contains a non-empty Vec or a Some; distinct = distinct case text',
+        explanation='C23_build_ast_sem, C23_ast_tokens, C23_options_present_iff, C23_repetition_order.',
     ),
 })
